@@ -40,6 +40,10 @@ SOURCES = [
 ]
 
 
+OPTIONAL_SOURCES = {'download.DownloadFilenameOutputManager._get_temp_fileobj', 'processpool.GetObjectSubmitter._allocate_temp_file',
+                    'processpool.GetObjectWorker._do_file_rename', 'processpool.GetObjectWorker._run_get_object_job'}
+
+
 def _mentions(expr, tainted):
     """A tainted name occurs in expr, not counting occurrences inside nested calls
     (those are judged at the nested call)."""
@@ -67,6 +71,8 @@ def destination_name_is_never_opened(ctx):
     of rename_file.  (FIFOs/devices are streaming destinations: C16, not C06.)"""
     n = 0
     for qn, tainted in SOURCES:
+        if qn in OPTIONAL_SOURCES and qn not in ctx.p.functions:
+            continue  # a small helper that may have been inlined into its (also listed) caller
         f = ctx.func(qn)
         tainted = set(tainted)
         # locals assigned directly from a tainted expression are tainted too (aliases),
@@ -121,9 +127,11 @@ def destination_name_is_never_opened(ctx):
     tn = q.names_defined_by(f, lambda v: isinstance(v, ast.BinOp) and norm(v).startswith('filename +') and 'random_file_extension()' in norm(v))
     ctx.ob(f, 'temp_filename = filename + os.extsep + random_file_extension()', len(tn) == 1 and len(q.local_defs(f, tn[0])) == 1, f'temp-name locals: {tn}')
     # what gets opened / allocated / received into is the temp name
-    f = ctx.func('download.DownloadFilenameOutputManager._get_temp_fileobj')
+    # on the fully expanded get_fileobj_for_io_writes (whether or not _get_temp_fileobj exists as a helper)
+    x = ctx.expanded()
+    f = x.func('download.DownloadFilenameOutputManager.get_fileobj_for_io_writes')
     cs = [c for c in own_calls(f.node) if (dotted(c.func) or '').endswith('_get_fileobj_from_filename')]
-    ctx.ob(f, '_get_fileobj_from_filename(self._temp_filename)', len(cs) == 1 and norm(cs[0].args[0]) == 'self._temp_filename', 'writes must go to the temporary file')
+    ctx.ob(f.qualname, '_get_fileobj_from_filename(self._temp_filename)', len(cs) == 1 and norm(cs[0].args[0]) == 'self._temp_filename', 'writes must go to the temporary file', node=f.node)
     f = ctx.func('processpool.GetObjectSubmitter._allocate_temp_file')
     cs = [c for c in own_calls(f.node) if (dotted(c.func) or '').endswith('.allocate')]
     ok = len(cs) == 1 and 'get_temp_filename(' in (q.ntext(f, cs[0].args[0]) or '') and q.returned_names(f) == [norm(cs[0].args[0])]
@@ -207,19 +215,22 @@ def cleanup_registered_with_the_temp_handle(ctx):
             ctx.ob(f, f'add_failure_cleanup({var}.close) on every path after creating the write handle', bool(regs) and g.must_pass(g.nodes_of(c), regs, [g.exit], g.NORMAL),
                    'a failed download would leave the temp file open (and on Windows undeletable)')
     ctx.need(n >= 1, 'no write-mode DeferredOpenFile creation found')
-    f = ctx.func('download.DownloadFilenameOutputManager._get_temp_fileobj')
-    g = ctx.cfg(f)
-    opens = [x for c in own_calls(f.node) if (dotted(c.func) or '').endswith('_get_fileobj_from_filename') for x in g.nodes_of(c)]
+    # on the fully expanded get_fileobj_for_io_writes: open the temp file, register its removal, keep and return the handle
+    xc = ctx.expanded()
+    f = xc.func('download.DownloadFilenameOutputManager.get_fileobj_for_io_writes')
+    g = xc.cfg(f)
+    openc = [c for c in own_calls(f.node) if (dotted(c.func) or '').endswith('_get_fileobj_from_filename')]
+    opens = [x for c in openc for x in g.nodes_of(c)]
     rm = [c for c in own_calls(f.node) if (dotted(c.func) or '').endswith('add_failure_cleanup') and c.args and norm(c.args[0]).endswith('remove_file')]
     ok = len(rm) == 1 and len(rm[0].args) == 2 and norm(rm[0].args[1]) == 'self._temp_filename' and not q.guards(rm[0])
-    ctx.ob(f, 'add_failure_cleanup(self._osutil.remove_file, self._temp_filename)', ok and g.must_pass([g.entry], [x for c in rm for x in g.nodes_of(c)], [g.exit], g.NORMAL),
-           'a failed or cancelled download would leave its temporary file behind')
-    ctx.ob(f, 'close is registered before remove', bool(opens) and bool(rm) and g.all_dominate(opens, [x for c in rm for x in g.nodes_of(c)], g.NORMAL), 'cleanups run in registration order')
-    # the filename manager's fileobj is what _get_temp_fileobj returns
-    f = ctx.func('download.DownloadFilenameOutputManager.get_fileobj_for_io_writes')
+    ctx.ob(f.qualname, 'add_failure_cleanup(self._osutil.remove_file, self._temp_filename)', ok and g.must_pass([g.entry], [x for c in rm for x in g.nodes_of(c)], [g.exit], g.NORMAL),
+           'a failed or cancelled download would leave its temporary file behind', node=f.node)
+    ctx.ob(f.qualname, 'close is registered before remove', bool(opens) and bool(rm) and g.all_dominate(opens, [x for c in rm for x in g.nodes_of(c)], g.NORMAL), 'cleanups run in registration order', node=f.node)
+    # the handle that is opened is the one kept in self._temp_fileobj and returned
     rets = [norm(x.value) for x in own_nodes(f.node) if isinstance(x, ast.Return)]
-    vals = [norm(v) for fn, v in ctx.cls('download.DownloadFilenameOutputManager').init_attrs.get('_temp_fileobj', []) if fn is f]
-    ctx.ob(f, 'returns self._temp_fileobj = self._get_temp_fileobj()', rets == ['self._temp_fileobj'] and vals == ['self._get_temp_fileobj()'], f'returns {rets} from {vals}')
+    st = [n for n in own_nodes(f.node) if isinstance(n, ast.Assign) and any(dotted(t) == 'self._temp_fileobj' for t in n.targets)]
+    kept = len(st) == 1 and len(openc) == 1 and q.resolve_local(f, st[0].value) is openc[0]
+    ctx.ob(f.qualname, 'returns self._temp_fileobj = the opened temp handle', rets == ['self._temp_fileobj'] and kept, f'returns {rets}', node=f.node)
 
 
 @rule('C06.d', ['C06', 'C19', 'C20', 'C02', 'C03'], floor=8)
@@ -253,10 +264,14 @@ def both_outcomes_handled(ctx):
         and len(waited) == 2 and all(w is not None for w in waited) and waited[0] is not waited[1]
     ctx.ob(f, f'wait([parts_future, io_future], return_when={rw.split(".")[-1]})', ok,
            'the download must not return before both the part fetcher and the IO writer finished without error: a late write error would be lost and a truncated file published')
-    pr = ctx.func('__init__.MultipartDownloader._process_future_results')
-    ok = any(isinstance(c.func, ast.Attribute) and c.func.attr == 'result' and isinstance(q.in_loop(c), ast.For) for c in own_calls(pr.node))
-    res = [c for c in own_calls(f.node) if (dotted(c.func) or '') == 'self._process_future_results']
-    ctx.ob(f, 'results of the finished futures are retrieved (errors propagate)', ok and len(res) == 1 and not q.guards(res[0]), 'exceptions of the controller futures must be re-raised')
+    # on the fully expanded download_file: .result() of every finished future, unconditionally, after the wait
+    xf = ctx.expanded().func('__init__.MultipartDownloader.download_file')
+    xg = ctx.expanded().cfg(xf)
+    xw = [n for c in own_calls(xf.node) if (dotted(c.func) or '').endswith('futures.wait') for n in xg.nodes_of(c)]
+    rs = [c for c in own_calls(xf.node) if isinstance(c.func, ast.Attribute) and c.func.attr == 'result' and not c.args and isinstance(q.in_loop(c), ast.For)]
+    ok = len(rs) == 1 and not q.guards(rs[0]) and bool(xw) and xg.all_dominate(xw, xg.nodes_of(rs[0]), xg.NORMAL) \
+        and isinstance(q.in_loop(rs[0]).target, ast.Name) and norm(rs[0].func.value) == q.in_loop(rs[0]).target.id
+    ctx.ob(f, 'results of the finished futures are retrieved (errors propagate)', ok, 'exceptions of the controller futures must be re-raised')
     # process pool
     f = ctx.func('processpool.GetObjectWorker._finalize_download')
     g = ctx.cfg(f)
